@@ -198,6 +198,10 @@ impl<L: Language, N: Analysis<L>> EGraph<L, N> {
         let psn = self.classes[&i].nodes[&sh].clone();
         let node = sh.apply_slotmap(&psn.elem);
         self.raw_remove_from_class(i, sh.clone());
+        // `update_analysis` re-queues the usages of class `i`. If this e-node mentions its own class,
+        // it has just re-queued itself under the shape that is removed here: carry the request over
+        // to the new shape instead of leaving a stale entry in `pending`.
+        let requeued = self.pending.remove(&sh);
         let app_i = self.mk_sem_identity_applied_id(i);
 
         let enode = &node;
@@ -242,6 +246,10 @@ impl<L: Language, N: Analysis<L>> EGraph<L, N> {
         let bij = bij.compose(&m);
         let t = (sh, bij);
         self.raw_add_to_class(i.id, t.clone(), src_id);
+        if let Some(ty) = requeued {
+            let v = self.pending.entry(t.0.clone()).or_insert(ty);
+            *v = v.merge(ty);
+        }
 
         self.determine_self_symmetries(src_id);
     }
